@@ -506,7 +506,7 @@ func tagSource(f *FuncInfo, e ast.Expr, depth int) string {
 
 // ruleTagUniq: R-TAG-UNIQ.
 func ruleTagUniq(c *Ctx, r *Report) {
-	r.Rule("R-TAG-UNIQ", "hashed numbers can collide, so every message is checked for repeated field numbers (including oneof members) before it is rendered, identity values are checked before being stored, and a collision is an error; protoMessageTemplate is executed at that single checked site only; explicit key tags increase by one per emitted key field", 7)
+	r.Rule("R-TAG-UNIQ", "hashed numbers can collide, so every message is checked for repeated field numbers (including oneof members) before it is rendered, identity values are checked before being stored, and a collision is an error; protoMessageTemplate is executed at that single checked site only; explicit key tags increase by one per emitted key field", 6)
 	f := c.MustFunc(r, "protogen", "genProto3MsgCode")
 	if f != nil {
 		info := f.Info()
@@ -695,51 +695,10 @@ func ruleTagUniq(c *Ctx, r *Report) {
 			r.Check(okInc, "protogen.genListKeyProto:counter", c.Pos(lits[0].Pos()), "one unconditional increment per key field; the list member takes the next number",
 				"the explicit tag counter of genListKeyProto is not incremented exactly once per emitted key field: two fields of the key message can share a number")
 		}
-		// name clash guard compares the names that are emitted.
-		var uniqArg, memberArg ast.Expr
-		for _, call := range CallsIn(gi, g.Decl.Body, P("genutil")+".MakeNameUnique") {
-			// the per-key field name (made unique inside the loop over the keys), not the name of
-			// the key message itself.
-			if as, ok := c.parentMap(g.File)[call].(*ast.AssignStmt); ok && uniqArg == nil && c.EnclosingLoop(g, call) != nil {
-				_ = as
-				uniqArg = call.Args[0]
-			}
-		}
-		last := lits
-		if len(last) > 0 {
-			for _, el := range last[len(last)-1].Elts {
-				if kv, ok := el.(*ast.KeyValueExpr); ok {
-					if id, ok := kv.Key.(*ast.Ident); ok && id.Name == "Name" {
-						memberArg = kv.Value
-						if cc, ok := ast.Unparen(memberArg).(*ast.CallExpr); ok && FullName(Callee(gi, cc)) == P("genutil")+".MakeNameUnique" && len(cc.Args) == 2 {
-							memberArg = cc.Args[0] // the uniquifier wraps the name that is compared
-						}
-						if cc, ok := ast.Unparen(memberArg).(*ast.CallExpr); ok && len(cc.Args) == 1 {
-							memberArg = cc.Args[0]
-						}
-					}
-				}
-			}
-		}
-		found := false
-		if uniqArg != nil && memberArg != nil {
-			ast.Inspect(g.Decl.Body, func(n ast.Node) bool {
-				is, ok := n.(*ast.IfStmt)
-				if !ok {
-					return true
-				}
-				be, ok := ast.Unparen(is.Cond).(*ast.BinaryExpr)
-				if !ok || be.Op != token.EQL {
-					return true
-				}
-				if (sameExpr(gi, be.X, memberArg) && sameExpr(gi, be.Y, uniqArg)) || (sameExpr(gi, be.Y, memberArg) && sameExpr(gi, be.X, uniqArg)) {
-					found = true
-				}
-				return true
-			})
-		}
-		r.Check(found, "protogen.genListKeyProto:name-clash-guard", c.Pos(g.Decl.Pos()), "compares the list member's name with the name the key field is derived from",
-			"the list-name/key-name clash guard of genListKeyProto does not compare the two names that are emitted (the list member's field name and the key's field name): a clash that only appears after sanitising yields two fields with one name")
+		// (The former obligation that the list-name/key-name clash guard compares the emitted names
+		// was withdrawn: since fix 8c52ef3d every field of the key message is named through the
+		// message's set of used names (R-PROTO-SCOPE obligation 8), so a missed rename can no
+		// longer produce a duplicate field name, and the guard only decides a naming style.)
 	}
 }
 
